@@ -186,8 +186,41 @@ Fixpoint py_parse (fuel : nat) (b : string) (acc : list string) : option (list s
 
 Definition py_messages (out : string) : option (list string) := py_parse (S (String.length out)) out [].
 
+(* oneLine (error.go) on bytes: LF, CR (CR LF as one), NEL (C2 85), LS (E2 80 A8) and PS
+   (E2 80 A9) become a space.  From a2acba6 on the text of a tool goes through it before it
+   is put into a message. *)
+Fixpoint one_line_s (s : string) : string :=
+  match s with
+  | EmptyString => EmptyString
+  | String c r =>
+      if Ascii.eqb c cr then
+        match r with
+        | String d r' => if Ascii.eqb d "010"%char then String " "%char (one_line_s r') else String " "%char (one_line_s r)
+        | EmptyString => String " "%char EmptyString
+        end
+      else if Ascii.eqb c "010"%char then String " "%char (one_line_s r)
+      else if Ascii.eqb c "194"%char then
+        match r with
+        | String d r' => if Ascii.eqb d "133"%char then String " "%char (one_line_s r') else String c (one_line_s r)
+        | EmptyString => String c EmptyString
+        end
+      else if Ascii.eqb c "226"%char then
+        match r with
+        | String d (String e r'') =>
+            if Ascii.eqb d "128"%char && (Ascii.eqb e "168"%char || Ascii.eqb e "169"%char)
+            then String " "%char (one_line_s r'') else String c (one_line_s r)
+        | _ => String c (one_line_s r)
+        end
+      else String c (one_line_s r)
+  end.
+
+Example one_line_s_ex :
+  one_line_s (" b" ++ String cr EmptyString)%string = " b "%string /\
+  one_line_s ("a" ++ String cr (String "010"%char "b") ++ String "226"%char (String "128"%char (String "168"%char "c")))%string = "a b c"%string.
+Proof. split; vm_compute; reflexivity. Qed.
+
 Definition py_diag (f : nat) (p : pos) (m : string) : diag :=
-  {| d_file := f; d_pos := p; d_rule := PY; d_body := bytes m |}.
+  {| d_file := f; d_pos := p; d_rule := PY; d_body := bytes (one_line_s m) |}.
 
 Definition py_callback (f : nat) (p : pos) (x : exec_res) : cb_res :=
   match x with
